@@ -84,6 +84,11 @@ CHECKS.update({
 NOT_YET = {
 }
 
+PARSE_SIDE = {"C01", "C08", "C09", "C10", "C11", "C12", "C13", "C15", "C18", "C19"}
+BUILD_SIDE = {"C02", "C03", "C04", "C05", "C06", "C07", "C14", "C16", "C17", "C19", "C20"}
+CHILD = {"C01", "C08", "C10", "C11", "C12", "C18"}
+ITER = {"C01", "C02", "C03", "C04", "C05", "C09", "C10", "C11", "C14", "C15"}
+
 def main():
     props = [json.loads(l) for l in open(os.path.join(HERE, "properties.jsonl"))]
     checks = []
@@ -92,6 +97,15 @@ def main():
         pid = p["id"]
         if pid in CHECKS:
             tech, text, note, ref = CHECKS[pid]
+            tech = tech.replace("20-kind menu", "27-kind menu").replace("x 4 endings", "x 10 endings")
+            if pid in PARSE_SIDE:
+                tech += "; every input string is handed to the parsers at a chosen address residue modulo 8 (spaces of at most 3e5 strings crossed with all eight residues, larger ones rotate it with the case index)"
+            if pid in BUILD_SIDE:
+                tech += "; output buffers start at rotating address residues modulo 8; in the probed flavour another builder instance of the same type is configured, sized and written between any two calls on the observed builder; packets read back at rotating address residues"
+            if pid in CHILD and pid != "C01":
+                tech += "; the long inputs (giants, giant runs and chunks, long chains) explored a second time in a child process built with the subject unoptimised, fatal signals caught"
+            if pid in ITER:
+                tech += "; iterator call histories with size_hint() after every call and the endings for-loop / count / last / nth / collect / fold / for_each / position / max_by_key / skip+step_by"
             checks.append({
                 "property_id": pid,
                 "quick_cmd": f"./check {pid} quick",
